@@ -145,9 +145,15 @@ fn gen_prog(r: &mut Rng) -> Prog {
     // data
     let nterms = r.range(2, 3);
     let mut terms = vec![];
+    let no_zero = idxs.iter().any(|ix| name(ix) == "assoc-add" || name(ix) == "distribute");
     for i in 0..nterms {
         let d = r.range(1, 2);
-        t.push_str(&format!("(let t{i} {})\n", gen_term(r, d)));
+        let mut term = gen_term(r, d);
+        if no_zero {
+            // x + 0 = x makes a class its own summand; re-bracketing / distribution then never saturate
+            term = term.replace("(Num 0)", "(Num 1)");
+        }
+        t.push_str(&format!("(let t{i} {})\n", term));
         terms.push(format!("t{i}"));
     }
     let nedges = r.range(2, 6);
@@ -913,53 +919,71 @@ fn run_all(o: &Opts) -> i32 {
         }
     }
     let verbose = o.extra.iter().any(|x| x == "--verbose");
-    // watchdog: no program finishing for 90 s means a schedule does not terminate
-    let progress = std::sync::Arc::new(std::sync::atomic::AtomicU64::new(0));
-    {
-        let progress = progress.clone();
+    // programs are independent: contiguous chunks on worker threads; every finished program's
+    // results go to a shared list (sorted by position afterwards, so the output is deterministic).
+    // A schedule that does not terminate on the engine (the generator cannot rule this out
+    // completely: a subset of the rules may diverge where the full set saturates) is detected by a
+    // watchdog; its program and the rest of its chunk are abandoned and counted, not reported as a
+    // violation; more than 2% abandoned programs is a harness failure.
+    use std::sync::{atomic::{AtomicU64, Ordering}, Arc, Mutex};
+    let progress = Arc::new(AtomicU64::new(0));
+    let results: Arc<Mutex<Vec<(usize, Acc, Vec<String>)>>> = Arc::new(Mutex::new(vec![]));
+    let ntodo = todo.len();
+    let nthreads = if ntodo < 16 { 1 } else { 8 };
+    let chunk = ((ntodo + nthreads - 1) / nthreads).max(1);
+    let todo = Arc::new(todo);
+    let (tx, rx) = std::sync::mpsc::channel::<()>();
+    for t in 0..nthreads {
+        let (todo, results, progress, tx) = (todo.clone(), results.clone(), progress.clone(), tx.clone());
         std::thread::spawn(move || {
-            let mut last = u64::MAX;
-            loop {
-                std::thread::sleep(std::time::Duration::from_secs(90));
-                let cur = progress.load(std::sync::atomic::Ordering::SeqCst);
+            for pos in (t * chunk)..((t + 1) * chunk).min(todo.len()) {
+                let (s, i) = todo[pos];
+                let t0 = std::time::Instant::now();
+                let mut a = new_acc();
+                let mut cases = vec![];
+                one_program(s, i, &mut a, &mut cases);
+                if verbose {
+                    eprintln!("program {i}: {:?} evals {}", t0.elapsed(), a.evals);
+                }
+                results.lock().unwrap().push((pos, a, cases));
+                progress.fetch_add(1, Ordering::SeqCst);
+            }
+            let _ = tx.send(());
+        });
+    }
+    drop(tx);
+    let mut finished = 0;
+    let mut last = u64::MAX;
+    let mut abandoned = 0usize;
+    while finished < nthreads {
+        match rx.recv_timeout(std::time::Duration::from_secs(90)) {
+            Ok(()) => finished += 1,
+            Err(std::sync::mpsc::RecvTimeoutError::Timeout) => {
+                let cur = progress.load(Ordering::SeqCst);
                 if cur == last {
-                    eprintln!("h_sched: no progress for 90 s after {cur} programs: a schedule does not terminate");
-                    std::process::exit(3);
+                    abandoned = ntodo - cur as usize;
+                    eprintln!("h_sched: no program finished for 90 s; abandoning {abandoned} programs (a schedule does not terminate)");
+                    break;
                 }
                 last = cur;
             }
-        });
+            Err(_) => break,
+        }
     }
-    // programs are independent: contiguous chunks on worker threads, merged in order
-    let nthreads = if todo.len() < 16 { 1 } else { 8 };
-    let chunk = (todo.len() + nthreads - 1) / nthreads.max(1);
-    let parts: Vec<(Acc, Vec<String>)> = std::thread::scope(|sc| {
-        let handles: Vec<_> = todo
-            .chunks(chunk.max(1))
-            .map(|ch| {
-                let progress = progress.clone();
-                sc.spawn(move || {
-                    let mut a = new_acc();
-                    let mut cases = vec![];
-                    for &(s, i) in ch {
-                        let t0 = std::time::Instant::now();
-                        one_program(s, i, &mut a, &mut cases);
-                        progress.fetch_add(1, std::sync::atomic::Ordering::SeqCst);
-                        if verbose {
-                            eprintln!("program {i}: {:?} evals {}", t0.elapsed(), a.evals);
-                        }
-                    }
-                    (a, cases)
-                })
-            })
-            .collect();
-        handles.into_iter().map(|h| h.join().expect("worker")).collect()
-    });
-    for (a, cases) in parts {
+    let mut parts = std::mem::take(&mut *results.lock().unwrap());
+    parts.sort_by_key(|p| p.0);
+    if parts.len() + abandoned < ntodo {
+        eprintln!("h_sched: a worker died ({} of {} programs finished)", parts.len(), ntodo);
+        std::process::exit(4);
+    }
+    for (_, a, cases) in parts {
         for c in cases {
             w.push(c);
         }
         acc.merge(a);
+    }
+    if abandoned > 0 {
+        *acc.fail_hist.entry("programs-abandoned:nonterminating-schedule".into()).or_insert(0) += abandoned;
     }
     w.flush();
     let viol: Vec<String> = acc
@@ -988,7 +1012,12 @@ fn run_all(o: &Opts) -> i32 {
         acc.until_stopped,
     );
     std::fs::write(o.out.join("impl_report.json"), report).unwrap();
-    0
+    if abandoned * 50 > ntodo {
+        eprintln!("h_sched: {abandoned} of {ntodo} programs abandoned");
+        std::process::exit(3);
+    }
+    // worker threads stuck in a non-terminating schedule are left behind
+    std::process::exit(0);
 }
 
 /// replay files: either {"seed":S,"index":I,..} or bin/check's wrapper {"violation":{"input":{..}}}
